@@ -768,6 +768,36 @@ func runR128(c *Ctx) {
 				c.ok(key, pos, "a name that is already in the map is rejected before the insertion")
 				return
 			}
+			// the duplicate may be remembered and reported after the loop (so that an unknown name later in the list
+			// still wins): a comma-ok lookup of the same key in the same map runs on every iteration before the
+			// insertion and its outcome is branched on
+			remembered := false
+			eachInstr(fn, func(i2 ssa.Instruction) {
+				lk, ok := i2.(*ssa.Lookup)
+				if !ok || !lk.CommaOk || !(lk.Block().Dominates(mu.Block())) || !inLoop(*li, lk.Block()) {
+					return
+				}
+				if lk.X != mu.Map && accessPath(lk.X) != accessPath(mu.Map) {
+					return
+				}
+				if stripConv(lk.Index) != k && accessPath(lk.Index) != accessPath(k) {
+					return
+				}
+				for _, r := range *lk.Referrers() {
+					if ex, ok := r.(*ssa.Extract); ok && ex.Index == 1 {
+						for _, r2 := range *ex.Referrers() {
+							switch r2.(type) {
+							case *ssa.If, *ssa.Phi, *ssa.BinOp:
+								remembered = true
+							}
+						}
+					}
+				}
+			})
+			if remembered {
+				c.ok(key, pos, "every name is looked up in the map before it is entered and the outcome is acted on")
+				return
+			}
 			c.bad(key, pos, fmt.Sprintf("columns are entered into the name map under keys taken from a caller-supplied list (%s) without a test that the name is not in the map yet: a name given twice produces a frame with two list entries and one map entry (ColumnNames [A A]); a column the caller forgot instead is silently lost", describe(k)))
 		})
 	}
